@@ -43,6 +43,7 @@ func main() {
 	cat := g1lib.Catalog()
 	apiLaws(r, cat)
 	sqlLayer(r, cat)
+	intStringBoundary(r)
 	pinned(r)
 	r.Floor(r.Counter("api.convert.calls") > 0, "Type.Convert never called")
 	r.Floor(r.Counter("api.accept") > 0 && r.Counter("api.reject") > 0, "no representable or no non-representable input judged")
